@@ -37,7 +37,7 @@ func (eng) CoqCaseType(mode string) string { return "Check_snapstore.case" }
 func (eng) CoqRun(mode string) string      { return "Check_snapstore.run" }
 func (eng) Rule(mode string) string {
 	if mode == "c12" {
-		return "random API histories on the real Store: assemblies of 0..4 operators and 0..3 source runners (duplicate names in the lists possible), acks in random order with injected duplicates, stale/future ids, unknown senders, acks without a pending checkpoint, creations while one is pending, savepoint joins, restarts (new Store + LoadCheckpoint on the same storage) with and without a pending checkpoint. Non-trivial: at least one checkpoint published and at least one rejected/ignored ack or a restart; distinct by hash of the op list."
+		return "random API histories on the real Store: assemblies of 0..4 operators and 0..3 source runners (duplicate names in the lists possible), acks in random order with injected duplicates, stale/future ids, unknown senders, acks without a pending checkpoint, creations while one is pending, savepoint joins, restarts (new Store + LoadCheckpoint on the same storage) with and without a pending checkpoint, fault injection 'the Remove calls of this process never reach the storage' so that restarts find 2..6 snapshot files of several generations (listing in byte order of the names, as LocalDirectory gives), plus structured multi-generation histories (publish 1..4, restart, create). Non-trivial: at least one checkpoint published and at least one rejected/ignored ack or a restart; distinct by hash of the op list."
 	}
 	return "seg: pathSegment of boundary, small, random 64-bit and carry-pattern ids; load: real LocalDirectory holding snapshot files of random id sets (neighbouring ids around base64 alphabet-order inversions, small and huge ids), listing order and LoadCheckpoint result; sched: random schedules of pub / release-write / release-remove / receive-notification / crash over up to 4 overlapping publications from random base ids. Non-trivial: (load) >= 2 ids; (sched) >= 2 publications with at least one write released out of id order or a crash with >= 2 files present; distinct by hash of the op list."
 }
@@ -151,7 +151,8 @@ func snapTerm(s *snapObs) string {
 // ---------- mode c12 ----------
 
 type op12 struct {
-	K   string   `json:"k"` // ck | sp | ao | as | rs
+	K   string   `json:"k"` // ck | sp | ao | as | rs | lr
+	B   bool     `json:"b,omitempty"` // lr: Remove calls get lost from now on (until the next restart)
 	Ops []uint64 `json:"ops,omitempty"`
 	Srs []uint64 `json:"srs,omitempty"`
 	D   int      `json:"d,omitempty"`  // ack id = last id seen + d
@@ -278,10 +279,22 @@ func execC12(c *hx.Case) (*hx.Result, error) {
 			}
 			terms = append(terms, fmt.Sprintf("XAckSr %s %s %s %s %s", hx.CoqN(cid), hx.CoqN(o.Op), nlist(o.St), hx.CoqBool(err != nil), pt))
 			observed = append(observed, map[string]any{"ack_sr": o.Op, "cid": cid, "err": err != nil, "published": po})
+		case "lr":
+			w.g.mu.Lock()
+			w.g.loseRm = o.B
+			w.g.mu.Unlock()
+			terms = append(terms, "XLoseRemoves "+hx.CoqBool(o.B))
+			observed = append(observed, map[string]any{"lose_removes": o.B})
 		case "rs":
 			nrs++
 			w.abandon()
 			files := w.snapshotFiles()
+			if len(files) >= 2 {
+				tags["restart_with_obsolete_files"] = true
+			}
+			if len(files) >= 3 {
+				tags["restart_with_3+_files"] = true
+			}
 			if err := w.boot(false); err != nil {
 				return nil, fmt.Errorf("LoadCheckpoint: %v", err)
 			}
